@@ -325,6 +325,12 @@ func init() {
 				continue
 			}
 			old := st.load(p)
+			if c.shadow && cf != nil {
+				cf.inReal = false
+				nv := c.havocValue(old, "hv")
+				c.pairValues(nv, old)
+				continue // the real result stays in place
+			}
 			nv := c.havocValue(old, "hv")
 			if cf != nil && cf.taint {
 				c.taintValue(nv)
@@ -684,6 +690,24 @@ func init() {
 		st.pc = st.pc.and(And(ILe(g, v), ILe(v, g)))
 		return g
 	}
+	V["SharedRO"] = func(c *Ctx, st *State, a []Value, site ssa.Instruction) Value {
+		if st.shared == nil {
+			fail("verif.SharedRO needs sharedro=1 on the obligation")
+		}
+		if p, ok := a[0].(IfaceV).V.(Pointer); ok && p.Obj != nil {
+			st.shared.mu.Lock()
+			st.shared.objs[p.Obj] = true
+			st.shared.mu.Unlock()
+		}
+		return nil
+	}
+	V["MutexAcquisitions"] = func(c *Ctx, st *State, a []Value, site ssa.Instruction) Value {
+		n, _ := st.ghost[ghostKey(a[0].(IfaceV).V, "locks")].(*Term)
+		if n == nil {
+			return BVI(0, 64)
+		}
+		return n
+	}
 	V["MutexHeld"] = func(c *Ctx, st *State, a []Value, site ssa.Instruction) Value {
 		held, _ := st.ghost[ghostKey(a[0], "held")].(*Term)
 		if held == nil {
@@ -863,6 +887,11 @@ func (c *Ctx) mutexOp(st *State, p Pointer, lock bool, site ssa.Instruction) Val
 	if lock {
 		c.addOb(st, "lock", "mutex not already held at Lock @"+c.posOf(site), c.posOf(site), Not(held))
 		st.ghost[k] = TrueT
+		n, _ := st.ghost[ghostKey(p, "locks")].(*Term)
+		if n == nil {
+			n = BVI(0, 64)
+		}
+		st.ghost[ghostKey(p, "locks")] = BvAdd(n, BVI(1, 64))
 	} else {
 		c.addOb(st, "lock", "mutex held at Unlock @"+c.posOf(site), c.posOf(site), held)
 		st.ghost[k] = FalseT
@@ -871,3 +900,25 @@ func (c *Ctx) mutexOp(st *State, p Pointer, lock bool, site ssa.Instruction) Val
 }
 
 var _ = types.Typ
+
+// pairValues records, leaf by leaf, (havoc variable, real value) pairs of a shadow run.
+func (c *Ctx) pairValues(hv, real Value) {
+	switch x := hv.(type) {
+	case *Term:
+		if y, ok := real.(*Term); ok && x.op == OVar {
+			c.shadowPairs = append(c.shadowPairs, [2]*Term{x, y})
+		}
+	case *StructV:
+		if y, ok := real.(*StructV); ok && len(x.F) == len(y.F) {
+			for i := range x.F {
+				c.pairValues(x.F[i], y.F[i])
+			}
+		}
+	case *ArrayV:
+		if y, ok := real.(*ArrayV); ok && len(x.E) == len(y.E) {
+			for i := range x.E {
+				c.pairValues(x.E[i], y.E[i])
+			}
+		}
+	}
+}
